@@ -216,6 +216,12 @@ class RoundTrip(Relation):
             'share': st.sampled_from(['different', 'all_equal', 'partly']),
             'regions': st.lists(decorated(), min_size=1, max_size=n),
             'edits': st.lists(st.integers(0, 7), min_size=1, max_size=n),
+            # text labels given to the whole LIST, in order: the delimiter one
+            # label needs ({} "" '') must not carry over to the next region
+            'texts': st.one_of(st.none(), st.none(), st.lists(
+                st.sampled_from(['a}', 'say "hi"', "it's", 'plain', '{x}',
+                                 'a}"', "x' y", '30"']),
+                min_size=2, max_size=n)),
         })
 
     def check(self, sp, ctx):
@@ -223,6 +229,11 @@ class RoundTrip(Relation):
         p = sp['precision']
         specs = [enforce_precondition(r, p) for r in sp['regions']]
         specs = apply_sharing(specs, sp['share'])
+        if sp.get('texts'):
+            ctx.label('list-texts')
+            specs = [r if r['cls'].startswith('Text') else dict(r, meta=dict(
+                r.get('meta') or {}, text=sp['texts'][i % len(sp['texts'])]))
+                for i, r in enumerate(specs)]
         regs = [S.build(r) for r in specs]
         text = Regions(regs).serialize(format='ds9', precision=p)
         ctx.check(isinstance(text, str) and text.startswith('# Region file '
